@@ -621,6 +621,27 @@ func ruleDedup(r *Run) {
 				r.Check(depHash, rule, fnName(fn), "dedup key includes the sub-query hash", site,
 					"the key is computed from QueryPlanStep.QueryStringHash",
 					"the de-duplication key ignores the sub-query: two different sub-queries for the same entity would share one answer")
+				// … and on nothing else: whatever more goes into the key splits lookups that ask
+				// the same service the same thing about the same entity (the step's insertion
+				// point, for instance: the same author under two branches is then fetched twice)
+				var extra []string
+				for _, lf := range inputPaths(key).leaves {
+					if strings.HasSuffix(lf.path, "[id]") || strings.Contains(lf.path, "QueryStringHash") {
+						continue
+					}
+					if _, isGlobal := lf.root.(*ssa.Global); isGlobal {
+						continue
+					}
+					d := leafName(lf.root)
+					if lf.path != "" {
+						d += "." + lf.path
+					}
+					extra = append(extra, d)
+				}
+				sort.Strings(extra)
+				r.Check(len(extra) == 0, rule, fnName(fn), "dedup key made of the entity id and the sub-query only", site,
+					"nothing but variables[\"id\"] and QueryStringHash goes into the key",
+					"the de-duplication key also depends on "+strings.Join(extra, ", ")+": lookups that ask one service the same sub-query about the same entity no longer collapse when they differ there (the same entity reached through two steps is sent twice), so the size of a batch follows the shape of the result")
 				// guard: len(variables) == 1 (in either polarity) on the way to the key
 				guarded := false
 				for _, i2 := range allInstrs(fn) {
